@@ -114,6 +114,11 @@ var typeURLs = []string{
 	"/",
 }
 
+// ExtraTypeURLs is filled by the test binary with every type URL registered in the application's
+// interface registry (all interfaces: sdk.Msg, authz, gov content, ...): any of them resolves in
+// the codec, none but the orbiter's own attribute types may be accepted in a payload.
+var ExtraTypeURLs []string
+
 var enumValues = []string{
 	`0`, `1`, `2`, `3`, `4`, `5`, `6`, `-1`, `99`, `2147483647`, `2147483648`, `-2147483648`,
 	`"PROTOCOL_UNSUPPORTED"`, `"PROTOCOL_IBC"`, `"PROTOCOL_CCTP"`, `"PROTOCOL_HYPERLANE"`, `"PROTOCOL_INTERNAL"`,
@@ -190,7 +195,7 @@ func Mutate(t *rapid.T, root *JV) Mutation {
 		}
 	}
 	if n.key == "@type" {
-		kinds = []string{"type-url", "type-url", "type-url", "delete", "null", "wrong-type"}
+		kinds = []string{"type-url", "type-url", "type-url", "delete", "null", "wrong-type", "foreign-type-bare", "foreign-type-bare"}
 	}
 	if n.key == "id" || n.key == "protocol_id" {
 		kinds = []string{"enum", "enum", "enum", "delete", "null", "wrong-type", "hostile-string"}
@@ -295,6 +300,19 @@ func Mutate(t *rapid.T, root *JV) Mutation {
 		n.replace(JStr(strings.Repeat("A", rapid.IntRange(33, 5000).Draw(t, "mut/ls"))))
 	case "type-url":
 		n.replace(JStr(pick(t, "mut/tu", typeURLs)))
+	case "foreign-type-bare":
+		// the whole attributes object becomes {"@type": <some registered type>} with no other
+		// member, so that nothing but the type itself can be the reason to refuse it
+		pool := typeURLs
+		if len(ExtraTypeURLs) > 0 && chance(t, "mut/ftb/extra", 80) {
+			pool = ExtraTypeURLs
+		}
+		url := pick(t, "mut/ftb", pool)
+		if n.parent != nil && n.parent.Kind == memo.JObj {
+			n.parent.Obj = []JKV{{K: "@type", V: JStr(url)}}
+		} else {
+			n.replace(JStr(url))
+		}
 	case "enum":
 		n.replace(JRaw(pick(t, "mut/enum", enumValues)))
 	case "coin":
